@@ -63,6 +63,55 @@ func (o *Op) Key() string {
 
 func (o *Op) String() string { return o.Key() }
 
+// SrcPaths are the pages a sub-request may come from.
+var SrcPaths = []string{"/page", "/checkout/", "/news/today", "/"}
+
+// MutateWebOp returns a copy of a URL-style op that differs from o in exactly
+// one of: content type, URL path, source page (same source host).  Per-page
+// and per-type state that leaks between the sub-requests of one site shows on
+// such neighbours.
+func MutateWebOp(ch *core.Chooser, o Op) Op {
+	n := o
+	switch ch.Intn("q.mutweb", 3) {
+	case 0:
+		cur := 0
+		for i, t := range reqTypes {
+			if t == o.Type {
+				cur = i
+			}
+		}
+		n.Type = reqTypes[(cur+1+ch.Intn("q.mutv", len(reqTypes)-1))%len(reqTypes)]
+	case 1:
+		// same scheme://host, another path
+		rest := strings.SplitN(o.URL, "://", 2)
+		if len(rest) == 2 {
+			host := rest[1]
+			if i := strings.IndexByte(host, '/'); i >= 0 {
+				host = host[:i]
+			}
+			n.URL = rest[0] + "://" + host + webPaths[ch.Intn("q.path", len(webPaths))]
+		}
+	default:
+		if o.Src != "" {
+			rest := strings.SplitN(o.Src, "://", 2)
+			host := rest[len(rest)-1]
+			if i := strings.IndexByte(host, '/'); i >= 0 {
+				host = host[:i]
+			}
+			cur := 0
+			for i, sp := range SrcPaths {
+				if strings.HasSuffix(o.Src, host+sp) {
+					cur = i
+				}
+			}
+			n.Src = "https://" + host + SrcPaths[(cur+1+ch.Intn("q.mutv", len(SrcPaths)-1))%len(SrcPaths)]
+		} else {
+			n.Type = reqTypes[ch.Intn("q.type", len(reqTypes))]
+		}
+	}
+	return n
+}
+
 var reqTypes = []rules.RequestType{rules.TypeDocument, rules.TypeScript, rules.TypeImage, rules.TypeSubdocument, rules.TypeXmlhttprequest, rules.TypeOther}
 
 // queryHost draws a host name to ask about: mostly from the run's alphabet,
@@ -97,7 +146,7 @@ func GenOp(ch *core.Chooser, hosts []string, kinds []int) Op {
 		scheme := []string{"http://", "https://", "ws://"}[ch.Intn("q.scheme", 3)]
 		o.URL = scheme + queryHost(ch, hosts) + webPaths[ch.Intn("q.path", len(webPaths))]
 		if ch.Intn("q.hassrc", 2) == 0 {
-			o.Src = "https://" + queryHost(ch, hosts) + "/page"
+			o.Src = "https://" + queryHost(ch, hosts) + SrcPaths[ch.Intn("q.srcpath", len(SrcPaths))]
 		}
 		o.Type = reqTypes[ch.Intn("q.type", len(reqTypes))]
 	}
